@@ -220,6 +220,7 @@ inductive Expr
 inductive Stmt
   | varDecl (x : Nat) (t : Option BType) (e : Option Expr)   -- `var x T = e`, `var x = e`, `var x T`
   | shortDecl (x : Nat) (e : Expr)                           -- `x := e`
+  | shortDecl2 (x y : Nat) (e₁ e₂ : Expr)                    -- `x, y := e₁, e₂` (at least one new name)
   | constDecl (x : Nat) (t : Option BType) (e : Expr)        -- `const x [T] = e`
   | assign (x : Nat) (e : Expr)                              -- `x = e`
   | assignBlank (e : Expr)                                   -- `_ = e`
@@ -599,6 +600,15 @@ def BinOp.assignable (op : BinOp) : Bool :=
   | .arith | .shift => true
   | _ => false
 
+/-- one name on the left of a multi-name `:=`: a name already declared in the scope is *assigned*
+(it must be a variable and the value assignable to it), a new name is declared with the type of
+its value. Answer: (is new, type). -/
+def shortTarget (Γ : Env) (x : Nat) (o : Operand) : Except Rej (Bool × BType) :=
+  match lookup Γ x with
+  | some (.var t) => do let _ ← assignTo o t false; pure (false, t)
+  | some (.const _ _) => .error .notAssignable
+  | none => do let t ← inferType o; let _ ← assignTo o t false; pure (true, t)
+
 def checkStmt (Γ : Env) : Stmt → Except Rej Env
   | .varDecl x (some t) (some e) => do
     let o ← checkExpr Γ e
@@ -618,6 +628,17 @@ def checkStmt (Γ : Env) : Stmt → Except Rej Env
     match lookup Γ x with
     | some _ => .error .noNewVars
     | none => .ok ((x, .var t) :: Γ)
+  | .shortDecl2 x y e₁ e₂ => do
+    let o₁ ← checkExpr Γ e₁
+    let o₂ ← checkExpr Γ e₂
+    if x = y then .error .redeclared
+    else do
+      let a ← shortTarget Γ x o₁
+      let b ← shortTarget Γ y o₂
+      if !a.1 && !b.1 then .error .noNewVars
+      else
+        let Γ₁ := if a.1 then (x, .var a.2) :: Γ else Γ
+        pure (if b.1 then (y, .var b.2) :: Γ₁ else Γ₁)
   | .constDecl x (some t) e => do
     let o ← checkExpr Γ e
     match o.val with
@@ -685,6 +706,7 @@ def Stmt.uses : Stmt → List Nat
   | .varDecl _ _ (some e) => e.idents
   | .varDecl _ _ none => []
   | .shortDecl _ e => e.idents
+  | .shortDecl2 _ _ e₁ e₂ => e₁.idents ++ e₂.idents   -- a redeclared name is assigned, not used
   | .constDecl _ _ e => e.idents
   | .assign _ e => e.idents
   | .assignBlank e => e.idents
